@@ -18,7 +18,7 @@ CORE = {
     'C04': dict(prefixes=['C04_'], mc_q=[('MC_readers_q', 300)], mc_t=[('MC_readers_t', 1500)],
                 fam_q=[('readers', 240)], fam_t=[('readers', 4000)]),
     'C05': dict(prefixes=['C05_', 'C01_RootIsAbstract', 'C01_reader'], mc_q=[('MC_linear_q', 300)], mc_t=[('MC_linear_t', 1500)],
-                fam_q=[('conc', 240), ('dfs2', 1)], fam_t=[('conc', 4000), ('dfs2', 3)]),
+                fam_q=[('conc', 200), ('free', 96), ('dfs2', 1)], fam_t=[('conc', 4000), ('free', 2000), ('dfs2', 3)]),
     'C06': dict(prefixes=['C06_'], mc_q=[('MC_merge_q', 300)], mc_t=[('MC_merge_t', 1500)],
                 fam_q=[('merge', 200), ('memmerge', 64)], fam_t=[('merge', 4000), ('memmerge', 1000)]),
     'C11': dict(prefixes=['C11_'], mc_q=[('MC_files_q', 300)], mc_t=[('MC_files_t', 1500)],
@@ -26,7 +26,7 @@ CORE = {
     'C14': dict(prefixes=['C14_', 'C02_', 'C03_', 'C01_RootIsAbstract', 'C04_'], mc_q=[('MC_faults_q', 300)], mc_t=[('MC_faults_t', 1500)],
                 fam_q=[('faults', 160)], fam_t=[('faults', 3000)]),
     'C15': dict(prefixes=['C15_'], mc_q=[('MC_close_q', 300)], mc_t=[('MC_close_t', 1500), ('MC_live', 1500)],
-                fam_q=[('close', 240)], fam_t=[('close', 4000)]),
+                fam_q=[('close', 200), ('free', 96)], fam_t=[('close', 4000), ('free', 2000)]),
 }
 
 ASSUME_CORE = [
@@ -167,13 +167,105 @@ def setup():
                 rc = 1
         try:
             vlib.build_harness(sd)
-            log('harness built')
+            for pkg in ('persistprobe', 'planprobe', 'searchprobe', 'collprobe', 'aggprobe', 'layoutprobe'):
+                vextra.go_build(sd, './cmd/' + pkg, pkg)
+            log('harness and probes built')
         except Inconclusive as e:
             log(str(e))
             rc = 1
     finally:
         shutil.rmtree(sd, ignore_errors=True)
+    if rc == 0:
+        rc = selftest()
     return rc
+
+
+def selftest():
+    """Demonstrates that the specifications are bound to the code and are not vacuous:
+    (1) the models with a known defect switched back on yield counterexamples,
+    (2) a recorded trace of the real writer is accepted, and the same trace with one logged
+        field corrupted / one event dropped is rejected with the expected clause."""
+    sd = vlib.scratch_dir('selftest')
+    ok = True
+    try:
+        # (1a) BlugeCore without the truncate repair: TLC must find the double-fault counterexample
+        wd = os.path.join(sd, 'mc1')
+        os.makedirs(wd)
+        for f in glob.glob(os.path.join(SPEC, '*.tla')):
+            shutil.copy(f, wd)
+        cfg = open(os.path.join(SPEC, 'MC_durable_q.cfg')).read().replace('TruncateOnPersist = TRUE', 'TruncateOnPersist = FALSE')
+        open(os.path.join(wd, 'x.cfg'), 'w').write(cfg)
+        rc, out = vlib.tlc_run(wd, 'MC.tla', 'x.cfg', workers=8, timeout=600)
+        hit = 'is violated' in out
+        log('selftest: BlugeCore with TruncateOnPersist=FALSE -> %s' % ('counterexample found (' + (re.search(r'Invariant (\w+) is violated', out).group(1) if hit and re.search(r'Invariant (\w+) is violated', out) else 'property') + ')' if hit else 'NO counterexample'))
+        ok &= hit
+        # (1b) DirFS without truncate / without sync
+        for const, want in (('Truncate = TRUE', 'ExactOnSuccess'), ('SyncOnPersist = TRUE', 'SyncedOnSuccess')):
+            wd = os.path.join(sd, 'mc-' + want)
+            os.makedirs(wd)
+            shutil.copy(os.path.join(SPEC, 'DirFS.tla'), wd)
+            cfg = open(os.path.join(SPEC, 'MC_dirfs.cfg')).read().replace(const, const.replace('TRUE', 'FALSE'))
+            open(os.path.join(wd, 'x.cfg'), 'w').write(cfg)
+            rc, out = vlib.tlc_run(wd, 'DirFS.tla', 'x.cfg', workers=4, timeout=300)
+            hit = ('Invariant %s is violated' % want) in out
+            log('selftest: DirFS with %s -> %s' % (const.replace('TRUE', 'FALSE'), 'counterexample to ' + want if hit else 'NO counterexample'))
+            ok &= hit
+        # (2) trace binding
+        binp = vlib.build_harness(sd)
+        out, logs = vlib.drive(binp, sd, 'core', 12, 7, shards=1)
+        tf = sorted(glob.glob(os.path.join(out, 'trace-keep*-s0.ndjson')))[0]
+        keep = int(re.search(r'keep(\d+)', tf).group(1))
+        base = vlib.validate_trace(sd, tf, keep, 'st0')
+        good = base['ok'] and not base['viols']
+        log('selftest: recorded trace (%d events) accepted: %s' % (base['events'], good))
+        ok &= good
+        lines = open(tf).read().splitlines()
+
+        def variant(name, edit, expect):
+            new = edit([json.loads(l) for l in lines])
+            p = os.path.join(sd, name + '.ndjson')
+            open(p, 'w').write('\n'.join(json.dumps(e) for e in new) + '\n')
+            r = vlib.validate_trace(sd, p, keep, name)
+            got = {v[0] for v in r['viols']}
+            hit = any(any(g.startswith(x) for x in expect) for g in got)
+            log('selftest: %s -> clauses %s (%s)' % (name, sorted(got)[:6], 'rejected as expected' if hit else 'NOT rejected'))
+            return hit
+
+        def drop_doc(evs):
+            for e in evs:
+                if e['ev'] == 'IntroBatch' and e['ents'] and e['ents'][-1]['docs']:
+                    e['ents'][-1]['docs'] = e['ents'][-1]['docs'][1:]
+                    break
+            return evs
+
+        def drop_snapshot_persist(evs):
+            for i, e in enumerate(evs):
+                if e['ev'] == 'PersistEnd' and e['kind'] == '.snp' and e['err'] == '':
+                    return evs[:i] + evs[i + 1:]
+            return evs
+
+        def drop_handle_close(evs):
+            for i, e in enumerate(evs):
+                if e['ev'] == 'HandleClose' and e['kind'] == '.seg':
+                    return evs[:i] + evs[i + 1:]
+            return evs
+
+        def reorder_return(evs):
+            # a Return logged before the introduction of its batch
+            for i, e in enumerate(evs):
+                if e['ev'] == 'Return' and e['err'] == '':
+                    for j in range(i - 1, -1, -1):
+                        if evs[j]['ev'] == 'IntroBatch' and evs[j]['uid'] == e['uid']:
+                            return evs[:j] + [e] + evs[j:i] + evs[i + 1:]
+            return evs
+        ok &= variant('corrupt-root', drop_doc, ['C01_', 'STRICT_'])
+        ok &= variant('drop-snapshot-persist', drop_snapshot_persist, ['C02_', 'C03_', 'C11_'])
+        ok &= variant('drop-handle-close', drop_handle_close, ['C11_handle_leaked'])
+        ok &= variant('return-before-introduction', reorder_return, ['C05_'])
+        log('selftest: %s' % ('PASSED' if ok else 'FAILED'))
+        return 0 if ok else 1
+    finally:
+        shutil.rmtree(sd, ignore_errors=True)
 
 
 def replay(path):
